@@ -97,6 +97,14 @@ func cmdVC(args []string) {
 	fs.Parse(args)
 	l := loadRepo(fs.Args())
 	fmt.Printf("loaded in %.1fs, %d functions, %d contracts\n", l.loadS, len(l.funcs), len(l.cs.Funcs))
+	if irep := genInducts(l.prog, l.cs, ""); len(irep.Obls) > 0 || irep.Err != "" {
+		if irep.Err != "" {
+			fmt.Println("INDUCT ERROR", irep.Err)
+		}
+		for _, r := range dischargeAll(irep.Obls, verifRoot+"/out/vc", *timeout) {
+			fmt.Printf("   induct %-10s %-50s %s %dms %v\n", r.Status, r.O.Label, r.Solver, r.Ms, r.AllStat)
+		}
+	}
 	if lrep := genLemmas(l.prog, l.cs, ""); len(lrep.Obls) > 0 || lrep.Err != "" {
 		if lrep.Err != "" {
 			fmt.Println("LEMMA ERROR", lrep.Err)
